@@ -1,5 +1,5 @@
-(* Stages B-E, part 2: the reference semantics Sem.run on programs over variables (declared at the top level and in blocks;
-   conditionals and condition loops with break / continue nested to any depth) computes exactly [run_stmts], whenever
+(* Stages B-F, part 2: the reference semantics Sem.run on programs over variables (declared at the top level and in blocks;
+   conditionals, condition loops and three-clause loops with break / continue nested to any depth) computes exactly [run_stmts], whenever
    the latter's fuel suffices.  The variable at position i of the visible ones is bound, in the environment, to a store
    location of its own that holds its value; the bindings a block adds are gone when the block ends. *)
 From Coq Require Import List ZArith NArith Bool Arith Lia.
@@ -69,6 +69,53 @@ Definition wloop (f : nat) (e : env) (c : node) (body : list node) : nat -> stat
 Lemma eval_NFor_cond names f e s c body : eval (S f) e s (NFor (Some (F.embed names c)) None None body) =
   wloop f e (F.embed names c) body f s.
 Proof. destruct c; reflexivity. Qed.
+
+(* the rounds of the three-clause loop of Sem.eval (after the init clause): [le] is the loop's environment *)
+Definition floop (f : nat) (e le : env) (c p : node) (body : list node) : nat -> state -> outcome * env * state :=
+  fix lp (k : nat) (s : state) : outcome * env * state :=
+    match k with
+    | O => (OErr XFuel, e, s)
+    | S k' =>
+        match eval f le s c with
+        | (OVal cv, _, s1) =>
+            if truthy s1 cv then
+              let after_body (s' : state) : outcome * env * state :=
+                  match eval f le s' p with
+                  | (OVal _, _, s'') => lp k' s''
+                  | (o, _, s'') => (o, e, s'')
+                  end in
+              match eblock f le s1 body with
+              | (OVal _, _, s') | (OCont, _, s') => after_body s'
+              | (OBrk, _, s') => (OVal VNil, e, s')
+              | (o, _, s') => (o, e, s')
+              end
+            else (OVal VNil, e, s1)
+        | (o, _, s1) => (o, e, s1)
+        end
+    end.
+Lemma eval_NFor3 f e s c i p body : eval (S f) e s (NFor (Some c) (Some i) (Some p) body) =
+  match eval f ([] :: e) s i with
+  | (OVal _, le, s0) => floop f e le c p body f s0
+  | (o, _, s0) => (o, e, s0)
+  end.
+Proof. reflexivity. Qed.
+Lemma floop_S f e le c p body k s : floop f e le c p body (S k) s =
+  match eval f le s c with
+  | (OVal cv, _, s1) =>
+      if truthy s1 cv then
+        match eblock f le s1 body with
+        | (OVal _, _, s') | (OCont, _, s') =>
+            match eval f le s' p with
+            | (OVal _, _, s'') => floop f e le c p body k s''
+            | (o, _, s'') => (o, e, s'')
+            end
+        | (OBrk, _, s') => (OVal VNil, e, s')
+        | (o, _, s') => (o, e, s')
+        end
+      else (OVal VNil, e, s1)
+  | (o, _, s1) => (o, e, s1)
+  end.
+Proof. reflexivity. Qed.
 
 Lemma eval_NIf1 f e s c cns : eval (S f) e s (NIf c cns None) =
   match eval f e s c with
@@ -418,6 +465,75 @@ Section Names.
         try (rewrite Hlen; assumption). exact Hr.
   Qed.
 
+  (* the rounds of a three-clause loop: [scope] and [locs] include the loop variable; source fuel n for body and post,
+     kk rounds allowed at the source level, j >= kk in Sem *)
+  Lemma floop_sem n f c p b e le scope locs k lp : stmt_sem n -> n <= f ->
+    F.height c <= S f -> P.sheight p <= f -> P.max_height b <= f -> scope_ok k scope -> k + P.ndecls b <= length names ->
+    env_part scope locs le -> P.is_simple p = true ->
+    forall kk j rho s r, kk <= j -> store_part rho locs s -> length rho = length scope ->
+    F.wf (length rho) c = true -> P.wf_stmt lp (length rho) p = true -> P.wf_stmts true (length rho) b = true ->
+    P.loop3 (P.run_stmt n) c p b kk rho = Some r ->
+    match r with
+    | inl (rho', v) => exists s',
+        floop (S f) e le (F.embed (P.vnames names scope) c) (P.embed_stmt names k scope p) (P.embed_stmts names k scope b) j s = (OVal VNil, e, s') /\
+        store_part rho' locs s' /\ v = F.VNil
+    | inr (P.StErr x) => exists s',
+        floop (S f) e le (F.embed (P.vnames names scope) c) (P.embed_stmt names k scope p) (P.embed_stmts names k scope b) j s = (lift (inr x), e, s')
+    | inr _ => False
+    end.
+  Proof.
+    intros Hst Hnf Hhc Hhp Hhb Hok Hn Henv Hsp.
+    induction kk as [|kk IH]; intros j rho s r Hj Hsto Hls Hwc Hwp Hwb Hr; [discriminate|].
+    destruct j as [|j]; [lia|].
+    rewrite PF.loop3_S in Hr. rewrite floop_S.
+    assert (Hinv1 : sem_inv rho scope locs le s) by (split; assumption).
+    rewrite (sem_scalar (P.vnames names scope) rho c (S f) le s Hhc Hwc (sem_inv_env_ok rho scope locs le s k Hinv1 Hok)).
+    destruct (F.sev rho c) as [vc|x]; [|inversion Hr; subst r; exists s; destruct x; reflexivity].
+    cbn [lift]. rewrite truthy_inj.
+    destruct (F.struthy vc); [|inversion Hr; subst r; exists s; split; [reflexivity|split; [exact Hsto|reflexivity]]].
+    destruct (PF.run_blk n rho b) as [rb|] eqn:Er; [|discriminate].
+    pose proof (eblock_list n f Hst Hnf b rho scope locs le s true k rb Hinv1 Hok Hn Hwb Hhb Er) as Hb.
+    pose proof (PF.run_block_length n b rho rb Er) as Hlen.
+    (* after the body (ended normally or by continue): the post statement, then the next round *)
+    assert (Hpost : forall rho1 s1, store_part rho1 locs s1 -> length rho1 = length rho ->
+              match P.run_stmt n rho1 p with Some (inl (rho2, _)) => P.loop3 (P.run_stmt n) c p b kk rho2 | other => other end = Some r ->
+              match r with
+              | inl (rho', v) => exists s',
+                  match eval (S f) le s1 (P.embed_stmt names k scope p) with
+                  | (OVal _, _, s'') => floop (S f) e le (F.embed (P.vnames names scope) c) (P.embed_stmt names k scope p) (P.embed_stmts names k scope b) j s''
+                  | (o, _, s'') => (o, e, s'')
+                  end = (OVal VNil, e, s') /\ store_part rho' locs s' /\ v = F.VNil
+              | inr (P.StErr x) => exists s',
+                  match eval (S f) le s1 (P.embed_stmt names k scope p) with
+                  | (OVal _, _, s'') => floop (S f) e le (F.embed (P.vnames names scope) c) (P.embed_stmt names k scope p) (P.embed_stmts names k scope b) j s''
+                  | (o, _, s'') => (o, e, s'')
+                  end = (lift (inr x), e, s')
+              | inr _ => False
+              end).
+    { intros rho1 s1 Hs1 Hl1 H.
+      destruct (P.run_stmt n rho1 p) as [rp|] eqn:Ep; [|discriminate].
+      pose proof (PF.simple_res n rho1 p rp Hsp Ep) as Hres.
+      assert (Hwp1 : P.wf_stmt lp (length rho1) p = true) by (rewrite Hl1; exact Hwp).
+      pose proof (Hst p rho1 scope locs le s1 f lp k rp (conj Henv Hs1) Hok ltac:(rewrite (PF.nd_simple p Hsp); destruct Hok; lia) Hwp1 Hhp Hnf Ep) as Hp.
+      assert (Hns : P.next_scope k scope p = scope) by (destruct p; try discriminate; reflexivity).
+      rewrite Hns in Hp.
+      destruct rp as [[rho2 v2]|[x|rho2|rho2]]; cbn [PF.same_len run_concl] in *; try contradiction.
+      - destruct Hp as [e2 [s2 [x2 [Hp Hinv2]]]]. rewrite Hp.
+        assert (Hx : x2 = []).
+        { destruct Hinv2 as [[_ [Hl2 _]] _]. destruct Henv as [_ [Hl0 _]]. rewrite app_length in Hl2.
+          destruct x2; [reflexivity|cbn [length] in Hl2; lia]. }
+        subst x2. rewrite app_nil_r in Hinv2. destruct Hinv2 as [_ Hs2]. destruct Hres as [Hl2 _].
+        exact (IH j rho2 s2 r ltac:(lia) Hs2 ltac:(lia) ltac:(rewrite Hl2, Hl1; exact Hwc) ltac:(rewrite Hl2, Hl1; exact Hwp)
+                  ltac:(rewrite Hl2, Hl1; exact Hwb) H).
+      - destruct Hp as [e2 [s2 Hp]]. rewrite Hp. inversion H; subst r. exists s2. destruct x; reflexivity. }
+    destruct rb as [[rho1 v1]|[x|rho1|rho1]]; cbn [block_concl PF.lenb_ok] in *.
+    - destruct Hb as [s1 [Hb [_ Hs1]]]. rewrite Hb. exact (Hpost rho1 s1 Hs1 Hlen Hr).
+    - destruct Hb as [s1 Hb]. rewrite Hb. inversion Hr; subst r. exists s1. destruct x; reflexivity.
+    - destruct Hb as [s1 [Hb Hs1]]. rewrite Hb. inversion Hr; subst r.
+      exists s1. split; [reflexivity|]. split; [exact Hs1|reflexivity].
+    - destruct Hb as [s1 [Hb Hs1]]. rewrite Hb. exact (Hpost rho1 s1 Hs1 Hlen Hr).
+  Qed.
+
   Lemma scope_ok_mono k k' scope : scope_ok k scope -> k <= k' -> k' <= length names -> scope_ok k' scope.
   Proof. intros [Hf _] Hle Hn. split; [eapply Forall_impl; [|exact Hf]; cbn; intros; lia|exact Hn]. Qed.
 
@@ -428,7 +544,7 @@ Section Names.
     intros st rho scope locs e s f lp k r Hinv Hok Hk Hwf Hf Hnf Hr.
     pose proof (sem_inv_env_ok rho scope locs e s k Hinv Hok) as Henv.
     assert (Hls : length scope = length rho) by (destruct Hinv as [[_ [H1 _]] [H2 _]]; lia).
-    destruct st as [x|i x|i o x|i up|x|c t el|c t|c b| |].
+    destruct st as [x|i x|i o x|i up|x|c t el|c t|c b|x c p b| |].
     - (* x := e *)
       cbn [P.embed_stmt P.wf_stmt P.next_scope P.nd P.sheight P.run_stmt] in *.
       rewrite eval_NVar, (sem_scalar (P.vnames names scope) rho x f e s Hf Hwf Henv).
@@ -509,6 +625,34 @@ Section Names.
       destruct r as [[rho' v]|[xx|rho'|rho']]; cbn [run_concl]; try contradiction.
       + destruct H as [s' [H [Hs' ->]]]. exists e, s', []. rewrite app_nil_r. split; [exact H|split; assumption].
       + destruct H as [s' H]. exists e, s'. exact H.
+    - (* for x := e; c; p { b } *)
+      rewrite PF.wf_SFor in Hwf. apply andb_true_iff in Hwf. destruct Hwf as [Hwf Hwb].
+      apply andb_true_iff in Hwf. destruct Hwf as [Hwf Hwp]. apply andb_true_iff in Hwf. destruct Hwf as [Hwf Hsp].
+      apply andb_true_iff in Hwf. destruct Hwf as [Hwx Hwc].
+      rewrite PF.sheight_SFor in Hf. destruct f as [|f]; [lia|]. rewrite PF.nd_SFor in Hk. cbn [P.next_scope].
+      rewrite PF.embed_SFor, eval_NFor3. rewrite PF.run_SFor in Hr.
+      destruct Hinv as [Henvp Hsto].
+      assert (Hinv1 : sem_inv rho scope locs ([] :: e) s) by (split; [apply env_part_push; exact Henvp|exact Hsto]).
+      rewrite eval_NVar, (sem_scalar (P.vnames names scope) rho x f ([] :: e) s ltac:(lia) Hwx (sem_inv_env_ok rho scope locs ([] :: e) s k Hinv1 Hok)).
+      destruct (F.sev rho x) as [v|xx]; [|inversion Hr; subst r; cbn [lift run_concl]; destruct xx; eexists; eexists; reflexivity].
+      cbn [lift].
+      pose proof (sem_inv_decl rho scope locs ([] :: e) s v k Hinv1 Hok ltac:(lia)) as [Henv2 Hsto2].
+      unfold alloc in *. cbn [fst snd] in *.
+      destruct (P.loop3 (P.run_stmt n) c p b n (rho ++ [v])) as [r0|] eqn:E; [|discriminate]. cbn [option_map] in Hr. inversion Hr; subst r. clear Hr.
+      assert (Hok2 : scope_ok (S k) (scope ++ [k])).
+      { destruct Hok as [Hf0 Hk0]. split; [|lia]. apply Forall_app. split; [eapply Forall_impl; [|exact Hf0]; cbn; intros; lia|constructor; [lia|constructor]]. }
+      assert (Hl2 : length (rho ++ [v]) = length (scope ++ [k])) by (rewrite !app_length; cbn [length]; lia).
+      assert (Hlr : length (rho ++ [v]) = S (length rho)) by (rewrite app_length; cbn [length]; lia).
+      pose proof (floop_sem n f c p b e _ (scope ++ [k]) (locs ++ [length (store s)]) (S k) lp
+                    (IH n ltac:(lia)) ltac:(lia) ltac:(lia) ltac:(lia) ltac:(lia) Hok2 ltac:(lia) Henv2 Hsp
+                    n (S f) (rho ++ [v]) _ r0 ltac:(lia) Hsto2 Hl2 ltac:(rewrite Hlr; exact Hwc) ltac:(rewrite Hlr; exact Hwp)
+                    ltac:(rewrite Hlr; exact Hwb) E) as H.
+      pose proof (PF.loop3_len n c p b (PF.run_stmt_length n) n (rho ++ [v]) r0 E) as Hlen.
+      assert (Hll : length locs = length rho) by (destruct Hsto as [H0 _]; exact H0).
+      destruct r0 as [[rho' v']|[xx|rho'|rho']]; cbn [run_concl P.trunc PF.lens_ok] in *; try contradiction.
+      + destruct H as [s' [H [Hs' ->]]]. exists e, s', []. rewrite app_nil_r. split; [exact H|].
+        split; [exact Henvp|]. apply (store_part_firstn rho' locs [length (store s)] s' (length rho) Hs' Hll). rewrite Hlr in Hlen. lia.
+      + destruct H as [s' H]. exists e, s'. exact H.
     - (* break *)
       cbn [P.run_stmt] in Hr. inversion Hr; subst r. cbn [P.embed_stmt run_concl]. rewrite eval_NBreak.
       exists e, s, []. rewrite app_nil_r. split; [reflexivity|exact (proj2 Hinv)].
@@ -568,7 +712,7 @@ Section Names.
   Proof.
     induction l as [|st r IH]; intros k scope acc; [reflexivity|].
     rewrite PF.embed_stmts_cons. cbn [fold_left].
-    destruct st as [x|i x|i o x|i up|x|c t el|c t|c b| |]; cbn [P.embed_stmt]; try apply IH.
+    destruct st as [x|i x|i o x|i up|x|c t el|c t|c b|x c p b| |]; cbn [P.embed_stmt]; try apply IH.
     destruct x; cbn [F.embed]; apply IH.
   Qed.
 
